@@ -129,7 +129,13 @@ where
             WaitingProjected::NoPool => Poll::Ready(WaitingPoll::Closed),
         };
 
-        if polled.is_ready() {
+        // Only a waiter which has resolved is done with its channel: while nothing has
+        // arrived yet it must stay registered, or a connection released later could
+        // never pre-empt the connection attempt of this checkout.
+        if matches!(
+            polled,
+            Poll::Ready(WaitingPoll::Connected(_)) | Poll::Ready(WaitingPoll::Closed)
+        ) {
             self.as_mut().set(Waiting::NoPool);
         };
 
